@@ -518,3 +518,136 @@ Theorem C10_kernel_ensrank_refines_model_binary64 :
        Ok (RefineEnsrank.ens_outputs (ensrank F64 KF eps sim) sim fmat ranks).
 Proof. exact @F64Laws.refine_c_ensrank_F64. Qed.
 Print Assumptions C10_kernel_ensrank_refines_model_binary64.
+
+(* ================================================================== *)
+(* The ensemble-rank clauses of C10 ITSELF on the REGENERATED program (MiniC translation of c_ensrank, src/hydrodiy/stat/c_dscore.c, glibc merge sort): the model *)
+(*    theorems above composed with C10_kernel_ensrank_refines_model (Proofs/KernelEnsrank.v); the preorder hypothesis follows from the separation hypothesis of the model theorems. *)
+(* ================================================================== *)
+From Coq Require Import String Lia PrimFloat.
+From Hy Require Import Base.Num Base.MiniC Gen.KernelsAst Gen.Consts Base.Num Base.MiniC Gen.KernelsAst Gen.ConstsC10 Model.Dscore.
+From Hy Require Proofs.KernelEnsrank.
+Import ListNotations.
+Open Scope string_scope.
+Open Scope list_scope.
+Open Scope Z_scope.
+
+(* the translated c_ensrank over the reals, forecasts whose values are pairwise equal or separated by both tolerances: returns 0, fmat[i1,i2] (i1 < i2) is the pairwise mid-rank comparison of Weigel and Mason over ncol^2, the other entries are untouched, ranks = 1 + the accumulated increments, each increment u the sign of F - 1/2 (0, 1/2, 1) *)
+Theorem C10_kernel_ensrank_F_is_midrank :
+  forall (eps : R) (ncol : nat) (sim : list (list R)) (fmat ranks : list R) (n : nat),
+       (DS_EPS_MIN_R <= eps)%R ->
+       KernelEnsrank.all_separated eps sim ->
+       KernelEnsrank.ens_shapes ncol sim fmat ranks n ->
+       exists fm rk : list R,
+         KernelEnsrank.run_ensrank n eps ncol sim fmat ranks =
+         Ok (RI 0, [VArrF (List.concat sim); VArrF fm; VArrF rk]) /\
+         Datatypes.length fm = Datatypes.length fmat /\
+         (forall i1 i2 : nat,
+          (i1 < i2 < Datatypes.length sim)%nat ->
+          nth (i1 * Datatypes.length sim + i2) fm 0%R =
+          (DscoreRankProofs.wm_sum (nth i1 sim []) (nth i2 sim []) / (INR ncol * INR ncol))%R) /\
+         (forall i1 i2 : nat,
+          (i2 <= i1)%nat ->
+          (i2 < Datatypes.length sim)%nat ->
+          nth (i1 * Datatypes.length sim + i2) fm 0%R =
+          nth (i1 * Datatypes.length sim + i2) fmat 0%R) /\
+         rk = map (fun d : R => (1 + d)%R) (DscoreRankProofs.delta ncol eps sim) /\
+         (forall i1 i2 : nat,
+          (i1 < Datatypes.length sim)%nat ->
+          (i2 < Datatypes.length sim)%nat ->
+          let F := pairF RR KR eps (nth i1 sim []) (nth i2 sim []) in
+          DscoreRankProofs.uF ncol eps (nth i1 sim []) (nth i2 sim []) =
+          (if Rltb F (1 / 2) then 0%R else if Rltb (1 / 2) F then 1%R else (1 / 2)%R)).
+Proof. exact @KernelEnsrank.kernel_ensrank_F_is_midrank. Qed.
+Print Assumptions C10_kernel_ensrank_F_is_midrank.
+
+(* under the preorder hypothesis alone (no separation): the ranks written by the translated kernel are 1 + delta *)
+Theorem C10_kernel_ensrank_ranks :
+  forall (eps : R) (ncol : nat) (sim : list (list R)) (fmat ranks : list R) (n : nat),
+       (DS_EPS_MIN_R <= eps)%R ->
+       RefineEnsrank.pairs_preorder RR KR sim ->
+       KernelEnsrank.ens_shapes ncol sim fmat ranks n ->
+       exists fm : list R,
+         KernelEnsrank.run_ensrank n eps ncol sim fmat ranks =
+         Ok
+           (RI 0,
+            [VArrF (List.concat sim); VArrF fm;
+             VArrF (map (fun d : R => (1 + d)%R) (DscoreRankProofs.delta ncol eps sim))]) /\
+         Datatypes.length fm = Datatypes.length fmat.
+Proof. exact @KernelEnsrank.kernel_ensrank_ranks. Qed.
+Print Assumptions C10_kernel_ensrank_ranks.
+
+(* forecasts that order a list of distinct keys (all members of a larger key above all members of a smaller key): the rank written for each forecast is 1 + the number of forecasts with a smaller key *)
+Theorem C10_kernel_ensrank_ordered_rows :
+  forall (eps : R) (m : nat) (ks : list (R * list R)) (fmat ranks : list R) (n : nat),
+       (DS_EPS_MIN_R <= eps)%R ->
+       NoDup (map fst ks) ->
+       DscoreRankProofs.ordered_rows eps m ks ->
+       KernelEnsrank.ens_shapes m (map snd ks) fmat ranks n ->
+       exists fm : list R,
+         KernelEnsrank.run_ensrank n eps m (map snd ks) fmat ranks =
+         Ok
+           (RI 0,
+            [VArrF (List.concat (map snd ks)); VArrF fm;
+             VArrF
+               (map
+                  (fun a : R * list R =>
+                   (1 + DscoreRankProofs.cntR (fun b : R * list R => Rltb (fst b) (fst a)) ks)%R)
+                  ks)]) /\ Datatypes.length fm = Datatypes.length fmat.
+Proof. exact @KernelEnsrank.kernel_ensrank_ordered_rows. Qed.
+Print Assumptions C10_kernel_ensrank_ordered_rows.
+
+(* permuting the members inside each forecast changes neither the F matrix nor the ranks written by the translated kernel *)
+Theorem C10_kernel_ensrank_member_permutation_invariant :
+  forall (eps : R) (ncol : nat) (sim sim' : list (list R)) (fmat ranks : list R) (n : nat),
+       (DS_EPS_MIN_R <= eps)%R ->
+       KernelEnsrank.all_separated eps sim ->
+       KernelEnsrank.ens_shapes ncol sim fmat ranks n ->
+       Forall2 (Permutation.Permutation (A:=R)) sim sim' ->
+       exists fm rk : list R,
+         KernelEnsrank.run_ensrank n eps ncol sim fmat ranks =
+         Ok (RI 0, [VArrF (List.concat sim); VArrF fm; VArrF rk]) /\
+         KernelEnsrank.run_ensrank n eps ncol sim' fmat ranks =
+         Ok (RI 0, [VArrF (List.concat sim'); VArrF fm; VArrF rk]).
+Proof. exact @KernelEnsrank.kernel_ensrank_member_permutation_invariant. Qed.
+Print Assumptions C10_kernel_ensrank_member_permutation_invariant.
+
+(* a strictly increasing rescaling of all forecast values (rescaled values again separated for eps') changes neither the F matrix nor the ranks written by the translated kernel *)
+Theorem C10_kernel_ensrank_increasing_map_invariant :
+  forall (eps eps' : R) (g : R -> R) (ncol : nat) (sim : list (list R)) 
+         (fmat ranks : list R) (n : nat),
+       (DS_EPS_MIN_R <= eps)%R ->
+       (DS_EPS_MIN_R <= eps')%R ->
+       (forall x y : R, (x < y)%R -> (g x < g y)%R) ->
+       KernelEnsrank.all_separated eps sim ->
+       KernelEnsrank.all_separated eps' (map (map g) sim) ->
+       KernelEnsrank.ens_shapes ncol sim fmat ranks n ->
+       exists fm rk : list R,
+         KernelEnsrank.run_ensrank n eps ncol sim fmat ranks =
+         Ok (RI 0, [VArrF (List.concat sim); VArrF fm; VArrF rk]) /\
+         KernelEnsrank.run_ensrank n eps' ncol (map (map g) sim) fmat ranks =
+         Ok (RI 0, [VArrF (List.concat (map (map g) sim)); VArrF fm; VArrF rk]).
+Proof. exact @KernelEnsrank.kernel_ensrank_increasing_map_invariant. Qed.
+Print Assumptions C10_kernel_ensrank_increasing_map_invariant.
+
+(* the abbreviations run_ensrank, ens_shapes, all_separated used above, unfolded; separated forecasts satisfy the preorder hypothesis pairs_preorder of the refinement theorem *)
+Theorem C10_kernel_ensrank_abbreviations :
+  (forall (n : nat) (eps : R) (ncol : nat) (sim : list (list R)) (fmat ranks : list R),
+        KernelEnsrank.run_ensrank n eps ncol sim fmat ranks =
+        exec_fun RR XRR program (S n) "c_ensrank"
+          [AVF eps; AVI (Z.of_nat (Datatypes.length sim)); AVI (Z.of_nat ncol);
+           AVArrF (List.concat sim); AVArrF fmat; AVArrF ranks]) /\
+       (forall (ncol : nat) (sim : list (list R)) (fmat ranks : list R) (n : nat),
+        KernelEnsrank.ens_shapes ncol sim fmat ranks n <->
+        (1 <= ncol)%nat /\
+        sim <> [] /\
+        Forall (fun r : list R => Datatypes.length r = ncol) sim /\
+        Datatypes.length fmat = (Datatypes.length sim * Datatypes.length sim)%nat /\
+        Datatypes.length ranks = Datatypes.length sim /\
+        (Nat.max (Datatypes.length sim) (2 * ncol) < n)%nat) /\
+       (forall (eps : R) (sim : list (list R)),
+        KernelEnsrank.all_separated eps sim <->
+        (forall r1 r2 : list R, In r1 sim -> In r2 sim -> DscoreRankProofs.separated eps (r1 ++ r2))) /\
+       (forall (eps : R) (sim : list (list R)),
+        KernelEnsrank.all_separated eps sim -> RefineEnsrank.pairs_preorder RR KR sim).
+Proof. exact @KernelEnsrank.kernel_ensrank_defs. Qed.
+Print Assumptions C10_kernel_ensrank_abbreviations.
